@@ -1,5 +1,6 @@
 UNITS = {
     "ip": dict(pkg="./pkg/ip", tags="default_build"),
+    "c14ip_race": dict(pkg="./pkg/ip", tags="default_build", race=True, shrinktime="10s"),
     "c14tc": dict(pkg="./pkg/tc", tags="default_build"),
     "c14link": dict(pkg="./pkg/link", tags="default_build"),
     # the package's own tests are tagged `privileged` (they need netlink/netns); the C14
@@ -11,7 +12,7 @@ UNITS = {
 PROPS = {
     "C14": dict(
         level="exploration",
-        technique="property-based testing (rapid) plus, in the thorough tier, native coverage-guided go fuzzing: differential against bit-level / big-integer reference models; structural check of the routing-table numbers in generated datapath configs",
+        technique="property-based testing (rapid; gateway derivation also under goroutine stress, also built with -race) plus, in the thorough tier, native coverage-guided go fuzzing: differential against bit-level / big-integer reference models; structural check of the routing-table numbers in generated datapath configs",
         rule="cases drawn by rapid generators. Classifier cases: a CIDR (every prefix 0..32/0..128, byte/word boundaries and neighbours over-represented, "
              "IPNet with/without host bits, IPv4 in 4- and 16-byte form) plus 1..4 probe addresses (inside; inside with one bit flipped at prefix boundary -2..+2; arbitrary) "
              "in a header whose other address field holds an unrelated/inside/complement address; non-trivial = prefix length not a multiple of 8 (IPv4) / 32 (IPv6) or a one-bit-flip probe. "
@@ -20,6 +21,8 @@ PROPS = {
              "addresses of A and B and their neighbours across B's boundary), and must accept B's own filter; pod-address lookups (1..4 installed /32 or /128 source filters built by MatchSrc, addresses equal / one bit apart / "
              "sharing 1..3 leading 32-bit words / differing only in the last word / arbitrary; the search loop of EnsureVlanTag and FilterBySrcIP over a slice with the real tc.Contain): the filter returned for B must match exactly packets "
              "from B (probes: B, every installed address, first and last bit of every word flipped), and B's own filter must be found; non-trivial = related pair / an installed address equal to or sharing a leading word with B. "
+             "Concurrent gateway cases: 2..8 generated subnets (IPv4 three times as likely as IPv6), one goroutine each, released together from a spin barrier and calling DeriveGatewayIP / GetIPAtIndex 200..600 times back to back; "
+             "every answer is compared with the big-integer reference and with the answer of the same subnet computed alone beforehand; the same test also runs in a unit built with -race; non-trivial = >= 2 distinct subnets. "
              "Gateway cases: non-trivial = prefix not byte aligned, subnet with <= 2 host bits, or network with a leading zero byte. "
              "Table-id cases: 1..8 link indexes incl. neighbours and values equal modulo 2^8/2^16/1000; non-trivial = >= 2 distinct indexes. "
              "Per-interface-table cases: a pod of 1..4 interfaces with distinct link indexes (steps 1/2/256/1000/65536), each with a datapath (ipvlan, exclusive ENI, veth+policy route, vlan), "
@@ -38,9 +41,11 @@ PROPS = {
         level_note="trusts Go's net and math/big as the reference; u32 semantics modelled (value/mask at byte offset into the IP header), not executed in the kernel; tc.FilterBySrcIP and the netlink list/add/delete steps of setupFilters / EnsureVlanTag / SetFilter / DelFilter need cls_u32 and are not run: their key comparison is exercised through tc.Contain and redirectRule.isMatch on filters kept in a slice, for single-family filter sets and the /32 and /128 host networks the callers pass; "
                    "the model demands keys in canonical form (Val has no bit outside Mask), which is what cls_u32's ((word^Val)&Mask)==0 reduces to for such keys; "
                    "name distinctness is checked per pod over sampled interface names (the name keeps 44 bits of a hash, so distinctness is probabilistic by design); "
-                   "determinism is checked inside one process only",
+                   "determinism is checked inside one process only; the goroutine stress overlaps calls by repetition, not by an owned schedule: a race that needs a preemption between two specific instructions may be missed (a data race reported only by the race detector, with no deviating value, ends the shard as inconclusive, not as a violation)",
         tests=[
             dict(unit="ip", test="TestVerifC14Gateway", quick=40000, thorough=4000000),
+            dict(unit="ip", test="TestVerifC14GatewayConcurrent", quick=2400, thorough=60000),
+            dict(unit="c14ip_race", test="TestVerifC14GatewayConcurrentRace", quick=320, thorough=6000),
             dict(unit="c14tc", test="TestVerifC14U32Src", quick=80000, thorough=4000000),
             dict(unit="c14datapath", test="TestVerifC14DstIPRule", quick=40000, thorough=2000000),
             dict(unit="c14tc", test="TestVerifC14SrcFilterLookup", quick=24000, thorough=1500000),
